@@ -62,3 +62,57 @@ def sources(pool=("e", "ds")):
                 seen.add(s)
                 out.append(s)
     return out
+
+
+# ----------------------------------------------------------------------------------------------------------------
+# Where chains: 2..3 filters (comparison, or, and, not, nested or/and, constant) that end up adjacent - directly, with a
+# Select in between (the filter is moved past it), or inside a SelectMany / Select lambda over the jets
+FILTERS = ["{v}.pt > 1", "{v}.pt > 1 or {v}.eta > 1", "{v}.pt > 1 and {v}.eta > 1", "not {v}.pt > 1",
+           "({v}.pt > 1 or {v}.eta > 1) and {v}.pt > 0", "{v}.pt > 1 or ({v}.eta > 1 and {v}.pt > 0)", "True"]
+
+
+def where_chains():
+    import itertools
+
+    out = []
+    for n in (2, 3):
+        for fs in itertools.product(range(len(FILTERS)), repeat=n):
+            if n == 3 and len(set(fs)) == 1:
+                continue
+            s = "e.jets"
+            for i, f in enumerate(fs):
+                s = f"Where({s}, lambda j{i}: {FILTERS[f].format(v='j%d' % i)})"
+            out.append(f"Select(ds, lambda e: {s})")
+            if n == 2:
+                a, b = fs
+                # a Select between the two filters (Where-of-Select moves the second filter in front of the Select)
+                mid = f"Select(Where(e.jets, lambda j0: {FILTERS[a].format(v='j0')}), lambda k: k)"
+                out.append(f"Select(ds, lambda e: Where({mid}, lambda j1: {FILTERS[b].format(v='j1')}))")
+                out.append(f"SelectMany(ds, lambda e: Where(Where(e.jets, lambda j0: {FILTERS[a].format(v='j0')}), "
+                           f"lambda j1: {FILTERS[b].format(v='j1')}))")
+                out.append(f"Select(ds, lambda e: Count(Where(Where(e.jets, lambda j0: {FILTERS[a].format(v='j0')}), "
+                           f"lambda j1: {FILTERS[b].format(v='j1')})))")
+    return out
+
+
+# ----------------------------------------------------------------------------------------------------------------
+# called lambdas with TWO defaulted parameters: every call shape Python accepts (how many positional arguments,
+# which keywords, in which order), defaults that are constants or mention the enclosing parameter
+def called_defaults():
+    import itertools
+
+    out = []
+    vals = {"a": "e.a", "b": "e.b", "c": "e.a + e.b"}
+    for defaults in (("1", "2"), ("e.b", "2"), ("1", "e.a + 1")):
+        head = f"lambda a, b={defaults[0]}, c={defaults[1]}"
+        for body in ("(a, b, c)", "a + b * 3 + c * 7"):
+            for npos in (0, 1, 2, 3):
+                pos = [vals[p] for p in "abc"[:npos]]
+                rest = list("abc"[npos:])
+                for r in range(len(rest) + 1):
+                    for kws in itertools.permutations(rest, r):
+                        if "a" in rest and "a" not in kws:
+                            continue  # a has no default
+                        args = pos + [f"{k}={vals[k]}" for k in kws]
+                        out.append(f"Select(ds, lambda e: ({head}: {body})({', '.join(args)}))")
+    return out
